@@ -5,6 +5,8 @@ import "fmt"
 // Replay dispatches a replay document to the check that wrote it.
 func Replay(rep M) {
 	switch rep["check"] {
+	case "C08":
+		ReplayC08(rep)
 	case "C09":
 		ReplayC09(rep)
 	default:
